@@ -14,7 +14,7 @@ import (
 func init() {
 	register(Property{
 		ID:          "C17",
-		Explanation: "Decided statically on constants and literals: T1/T2 every template of the deepcopy generator and of the shared field-copy helper is fully bound and its skeleton parses as Go; R1 in the parsed skeletons every value-returning DeepCopy function starts with `if in == nil { return nil }`; R2 the map and slice arms of the field switch return templates that allocate a fresh container of the field's own type with make(...) and copy into it, and the shallow `out.F = in.F` template is not used in those arms; R3 nil-package contradiction - a *types.Named that comes from a field type may be a universe type (error) whose Obj().Pkg() is nil; every .Obj().Pkg().M() on such a value is guarded by a Pkg() != nil test (runtimedoc guards the same access); R4 last-wins rule - no outer variable or field is overwritten on every iteration of a loop with an iteration-dependent value and then read after the loop, unless the assignment is guarded by a unique-key match (such a flag only reflects the last element); R5 (U1) the field switch looks through aliases, so a field declared through an alias of a map/slice is deep-copied; same-package dependencies are rendered at most once (instance-field processed set). R6 no schedule-dependent order source in the generator and its helper; R7 a field whose type is a named type of the same package is always copied through its DeepCopy/DeepCopyInto, never assigned; R8 the 'already generated' set is keyed by the declared type (Origin()) and the on-demand entry does not consult the enablement tags (the field copy calls the dependency's method unconditionally). R9 the only conditions on the way to a field's copy statement are the loop bound, the caller's Skip predicate and the blank name; R10 the field helper takes the copy methods for granted only where the field type's underlying type is known not to be an interface (the generator answers ErrSkip for interfaces); R11 generateType returns a sentinel only under a type fact on the underlying type. R12 the FieldContext of a field is the caller's or a value made for this field, never one that outlives it. R13 from a callback handed to Context.Defer no call of Defer is reachable (the framework runs the callbacks in one pass over the list as it stood). R14 the emitted DeepCopyObject returns nil or a variable under != nil only. R15 the worker looks the gengo:deepcopy tags up in Doc(<its own type>.Obj()), read inside the worker. R16 = C04.R3 (no decision depends on the method set of a type of the processed package). NOT decided: that the generated code compiles, that copies are deeply equal and alias-free for every type graph (needs compilation/execution). Round 8: R17 = C06.R3 (effective tags are merged into a fresh map per declaration), R18 = C13.R1 (the type table holds package-level objects only).",
+		Explanation: "Decided statically on constants and literals: T1/T2 every template of the deepcopy generator and of the shared field-copy helper is fully bound and its skeleton parses as Go; R1 in the parsed skeletons every value-returning DeepCopy function starts with `if in == nil { return nil }`; R2 the map and slice arms of the field switch return templates that allocate a fresh container of the field's own type with make(...) and copy into it, and the shallow `out.F = in.F` template is not used in those arms; R3 nil-package contradiction - a *types.Named that comes from a field type may be a universe type (error) whose Obj().Pkg() is nil; every .Obj().Pkg().M() on such a value is guarded by a Pkg() != nil test (runtimedoc guards the same access); R4 last-wins rule - no outer variable or field is overwritten on every iteration of a loop with an iteration-dependent value and then read after the loop, unless the assignment is guarded by a unique-key match (such a flag only reflects the last element); R5 (U1) the field switch looks through aliases, so a field declared through an alias of a map/slice is deep-copied; same-package dependencies are rendered at most once (instance-field processed set). R6 no schedule-dependent order source in the generator and its helper; R7 a field whose type is a named type of the same package is always copied through its DeepCopy/DeepCopyInto, never assigned; R8 the 'already generated' set is keyed by the declared type (Origin()) and the on-demand entry does not consult the enablement tags (the field copy calls the dependency's method unconditionally). R9 the only conditions on the way to a field's copy statement are the loop bound, the caller's Skip predicate and the blank name; R10 the field helper takes the copy methods for granted only where the field type's underlying type is known not to be an interface (the generator answers ErrSkip for interfaces); R11 generateType returns a sentinel only under a type fact on the underlying type. R12 the FieldContext of a field is the caller's or a value made for this field, never one that outlives it. R13 from a callback handed to Context.Defer no call of Defer is reachable (the framework runs the callbacks in one pass over the list as it stood). R14 the emitted DeepCopyObject returns nil or a variable under != nil only. R15 the worker looks the gengo:deepcopy tags up in Doc(<its own type>.Obj()), read inside the worker. R16 = C04.R3 (no decision depends on the method set of a type of the processed package). NOT decided: that the generated code compiles, that copies are deeply equal and alias-free for every type graph (needs compilation/execution). Round 8: R17 = C06.R3 (effective tags are merged into a fresh map per declaration), R18 = C13.R1 (the type table holds package-level objects only). Round 9: R19 every copy-statement template of the field helper ends in a line break.",
 		Assumptions: commonAssumptions,
 		Run:         runC17,
 	})
